@@ -222,9 +222,10 @@ func p4Load(repo string) *p4World {
 	w.ctxt.BuildTags = []string{"verif"}
 	w.ctxt.CgoEnabled = false
 	// export data of everything the module imports
-	cmd := exec.Command("go", "list", "-e", "-export", "-deps", "-tags", "verif", "-f", "{{.ImportPath}}\t{{.Export}}", "./...")
+	cmd := exec.Command("go", "list", "-mod=readonly", "-e", "-export", "-deps", "-tags", "verif", "-f", "{{.ImportPath}}\t{{.Export}}", "./...")
 	cmd.Dir = repo
-	cmd.Env = append(os.Environ(), "GOFLAGS=-mod=mod", "GOPROXY=off", "GOSUMDB=off", "GOTOOLCHAIN=local", "CGO_ENABLED=0")
+	// -mod=readonly: never touch go.mod / go.sum of the tree that is being inspected
+	cmd.Env = append(os.Environ(), "GOFLAGS=", "GOPROXY=off", "GOSUMDB=off", "GOTOOLCHAIN=local", "CGO_ENABLED=0")
 	var out bytes.Buffer
 	cmd.Stdout = &out
 	_ = cmd.Run()
@@ -299,6 +300,7 @@ type p4Func struct {
 	apiCall map[string]bool    // calls of AddRule / TryAdd (any receiver)
 	writes  map[string]bool    // frozen field labels assigned to / appended to / deleted from …
 	lits    map[string]bool    // frozen field labels initialised in a composite literal (a fresh object)
+	gwrites map[string]bool    // package-level variables of the module written ("pkg.name")
 	dyn     []*types.Signature // signatures of the function VALUES it calls
 	escapes bool               // referenced other than by a direct call
 	sites   []*p4Site          // call sites OF this function
@@ -407,7 +409,7 @@ func (w *p4World) index() {
 				}
 				obj, _ := p.info.Defs[fd.Name].(*types.Func)
 				fn := &p4Func{pkg: p, decl: fd, obj: obj, short: fd.Name.Name, name: pn + "." + fFuncName(fd),
-					calls: map[*p4Func]bool{}, apiCall: map[string]bool{}, writes: map[string]bool{}, lits: map[string]bool{}}
+					calls: map[*p4Func]bool{}, apiCall: map[string]bool{}, writes: map[string]bool{}, lits: map[string]bool{}, gwrites: map[string]bool{}}
 				var recv types.Object
 				if fd.Recv != nil && len(fd.Recv.List) > 0 && len(fd.Recv.List[0].Names) > 0 {
 					recv = p.info.Defs[fd.Recv.List[0].Names[0]]
@@ -445,6 +447,9 @@ func (w *p4World) index() {
 // declared in the module (rules.Rule): the function creates the object it returns, nobody else can
 // see that object before it returns.  NewMatchingResult, NewRequest … are ordinary query functions.
 func (w *p4World) isCtor(fn *p4Func) bool {
+	if fn.short == "init" && fn.decl.Recv == nil {
+		return true // package initialisation: runs once, before anything can query
+	}
 	if !strings.HasPrefix(fn.short, "New") && !strings.HasPrefix(fn.short, "new") {
 		return false
 	}
@@ -1262,7 +1267,7 @@ func (w *p4World) frozenLabel(info *types.Info, sel *ast.SelectorExpr) string {
 	return ""
 }
 
-func (w *p4World) writerFacts() (rows []p4WriterRow, typesFound, ctorWritten []string) {
+func (w *p4World) writerFacts() (rows, grows []p4WriterRow, typesFound, ctorWritten []string) {
 	for _, ref := range p4FrozenTypes {
 		if tn, _ := w.structOf(ref); tn != nil {
 			typesFound = append(typesFound, ref.typ)
@@ -1284,10 +1289,61 @@ func (w *p4World) writerFacts() (rows []p4WriterRow, typesFound, ctorWritten []s
 
 			return ""
 		}
+		galias := map[types.Object]string{}
+		globalOf := func(id *ast.Ident) string {
+			v, _ := info.Uses[id].(*types.Var)
+			if v == nil || v.Pkg() == nil || v.IsField() || v.Parent() != v.Pkg().Scope() {
+				return ""
+			}
+			if _, inModule := w.relOf(v.Pkg().Path()); !inModule {
+				return ""
+			}
+
+			return v.Pkg().Name() + "." + v.Name()
+		}
+		gtarget := func(e ast.Expr, direct bool) string {
+			switch x := p4WriteBase(e).(type) {
+			case *ast.Ident:
+				if g := globalOf(x); g != "" {
+					return g
+				}
+				if obj := info.Uses[x]; obj != nil && !direct {
+					return galias[obj]
+				}
+			case *ast.SelectorExpr:
+				if id, ok := x.X.(*ast.Ident); ok {
+					if _, isPkg := info.Uses[id].(*types.PkgName); isPkg {
+						return globalOf(x.Sel)
+					}
+				}
+			}
+
+			return ""
+		}
 		ast.Inspect(fn.decl.Body, func(n ast.Node) bool {
 			switch x := n.(type) {
 			case *ast.AssignStmt:
 				for i, l := range x.Lhs {
+					// package-level variables: assigned, or written through (index / alias of a map, slice, pointer)
+					if _, plain := l.(*ast.Ident); plain {
+						if g := gtarget(l, true); g != "" && x.Tok != token.DEFINE {
+							fn.gwrites[g] = true
+						}
+						if len(x.Rhs) == len(x.Lhs) {
+							if rid, ok := p4Unparen(x.Rhs[i]).(*ast.Ident); ok {
+								if g := globalOf(rid); g != "" {
+									if obj := info.Defs[l.(*ast.Ident)]; obj != nil {
+										switch obj.Type().Underlying().(type) {
+										case *types.Map, *types.Slice, *types.Pointer:
+											galias[obj] = g
+										}
+									}
+								}
+							}
+						}
+					} else if g := gtarget(l, false); g != "" {
+						fn.gwrites[g] = true
+					}
 					if id, isIdent := l.(*ast.Ident); isIdent {
 						// alias of a map / slice / pointer held in a frozen field: m := x.f
 						if len(x.Rhs) == len(x.Lhs) {
@@ -1314,6 +1370,9 @@ func (w *p4World) writerFacts() (rows []p4WriterRow, typesFound, ctorWritten []s
 					}
 				}
 			case *ast.IncDecStmt:
+				if g := gtarget(x.X, false); g != "" {
+					fn.gwrites[g] = true
+				}
 				if _, isIdent := x.X.(*ast.Ident); !isIdent {
 					if lb := target(x.X); lb != "" {
 						fn.writes[lb] = true
@@ -1335,6 +1394,9 @@ func (w *p4World) writerFacts() (rows []p4WriterRow, typesFound, ctorWritten []s
 						if _, isBuiltin := info.Uses[f].(*types.Builtin); isBuiltin {
 							if lb := target(x.Args[0]); lb != "" {
 								fn.writes[lb] = true
+							}
+							if g := gtarget(x.Args[0], false); g != "" {
+								fn.gwrites[g] = true
 							}
 						}
 					}
@@ -1444,7 +1506,7 @@ func (w *p4World) writerFacts() (rows []p4WriterRow, typesFound, ctorWritten []s
 	onQuery := map[*p4Func]bool{}
 	var work []*p4Func
 	for _, fn := range w.funcs {
-		entry := (ast.IsExported(fn.short) || fn.short == "main" || fn.short == "init") && !fn.isCtor && !p4BuildAPI[fn.short]
+		entry := (ast.IsExported(fn.short) || fn.short == "main") && !fn.isCtor && !p4BuildAPI[fn.short]
 		if entry {
 			onQuery[fn] = true
 			work = append(work, fn)
@@ -1511,24 +1573,30 @@ func (w *p4World) writerFacts() (rows []p4WriterRow, typesFound, ctorWritten []s
 				}
 			}
 		}
+		for g := range fn.gwrites {
+			grows = append(grows, p4WriterRow{fn: fn.name, field: g, kind: "asg", query: flag(onQuery[fn], "q"), ctor: flag(ctor[fn], "c")})
+		}
 		if onQuery[fn] {
 			for c := range fn.apiCall {
 				rows = append(rows, p4WriterRow{fn: fn.name, field: "call:" + c, kind: "asg", query: "q", ctor: flag(ctor[fn], "c")})
 			}
 		}
 	}
-	sort.Slice(rows, func(i, j int) bool {
-		if rows[i].fn != rows[j].fn {
-			return rows[i].fn < rows[j].fn
-		}
-		if rows[i].field != rows[j].field {
-			return rows[i].field < rows[j].field
-		}
+	for _, rs := range [][]p4WriterRow{rows, grows} {
+		rs := rs
+		sort.Slice(rs, func(i, j int) bool {
+			if rs[i].fn != rs[j].fn {
+				return rs[i].fn < rs[j].fn
+			}
+			if rs[i].field != rs[j].field {
+				return rs[i].field < rs[j].field
+			}
 
-		return rows[i].kind < rows[j].kind
-	})
+			return rs[i].kind < rs[j].kind
+		})
+	}
 
-	return rows, typesFound, fSortedKeys(written)
+	return rows, grows, typesFound, fSortedKeys(written)
 }
 
 func p4FactsSection(p func(format string, a ...any)) {
@@ -1578,7 +1646,7 @@ func p4FactsSection(p func(format string, a ...any)) {
 	}
 	p("]")
 	p("")
-	wrows, typesFound, ctorWritten := w.writerFacts()
+	wrows, grows, typesFound, ctorWritten := w.writerFacts()
 	p("-- writers of the fields of the frozen struct types, all packages:")
 	p("-- (function, field, asg = assignment/append/delete/… | lit = composite literal of a fresh object, q/-, c/-)")
 	p("def p4Writers : List (String × String × String × String × String) := [")
@@ -1588,6 +1656,16 @@ func p4FactsSection(p func(format string, a ...any)) {
 			sep = ""
 		}
 		p("  (%q, %q, %q, %q, %q)%s", r.fn, r.field, r.kind, r.query, r.ctor, sep)
+	}
+	p("]")
+	p("-- writers of package-level variables of the module: (function, pkg.variable, q/-, c/-)")
+	p("def p4GlobalWriters : List (String × String × String × String) := [")
+	for i, r := range grows {
+		sep := ","
+		if i == len(grows)-1 {
+			sep = ""
+		}
+		p("  (%q, %q, %q, %q)%s", r.fn, r.field, r.query, r.ctor, sep)
 	}
 	p("]")
 	p("def p4FrozenTypes : List String := %s", fLeanStrings(typesFound))
